@@ -41,6 +41,10 @@ func (l *simLogger) Error(m string) {
 		// not an observation: the echo must not change the log hash
 		fmt.Fprintf(os.Stderr, "%04d %-10s %s\n", l.s.Step, "gwerr", m)
 	}
+	if os.Getenv("SIM_GWERR") != "" {
+		// debugging aid: changes the log hash
+		l.s.obs("gwerr", m)
+	}
 	l.s.mu.Lock()
 	l.s.errLog = append(l.s.errLog, l.s.canonLocked(m))
 	l.s.Stats["gateway_error_log_lines"]++
